@@ -71,6 +71,13 @@ TWINS = [
     ("kl-ovo-gradient-without-constant", "gemclus/gemini/_fdivergences.py", [("(log_p_y_x + 1) / log_p_y_x.shape[0] - (p_y / p_y_x", "(log_p_y_x) / log_p_y_x.shape[0] - (p_y / p_y_x")]),
     ("chi2-ova-rewritten", "gemclus/gemini/_fdivergences.py", [("            chi2_gemini = np.sum(p_y_x*cluster_wise_estimates, axis=1).mean()", "            chi2_gemini = np.mean(np.square(p_y_x) / p_y, axis=0).sum()")]),
     ("wasserstein-ova-weights", "gemclus/gemini/_geomdistances.py", [("            constant_weights = np.ones(N) / N", "            constant_weights = np.ones(N) * (1 / N)")]),
+    ("linear-tau-two-steps", "gemclus/linear/_linear_geminis.py",
+     [("        tau_hat_grad = y_pred * (gradient - (y_pred * gradient).sum(1, keepdims=True))  # Shape NxK\n\n        W_grad",
+       "        weighted = y_pred * gradient\n        tau_hat_grad = weighted - y_pred * weighted.sum(1, keepdims=True)\n\n        W_grad")]),
+    ("mlp-backprop-mask-first", "gemclus/mlp/_mlp_geminis.py",
+     [("        backprop_grad = tau_hat_grad @ self.W2_.T\n        backprop_grad *= self.H_ > 0\n", "        backprop_grad = (tau_hat_grad @ self.W2_.T) * (self.H_ > 0)\n")]),
+    ("mlp-bias-grad-ones", "gemclus/mlp/_mlp_geminis.py",
+     [("        b2_grad = tau_hat_grad.sum(0, keepdims=True)", "        b2_grad = np.sum(tau_hat_grad, axis=0, keepdims=True)")]),
     ("get-gemini-local", "gemclus/mlp/_mlp_geminis.py",
      [("        return MMDGEMINI(ovo=self.ovo, kernel=self.kernel, kernel_params=self.kernel_params)", "        return MMDGEMINI(kernel=self.kernel, ovo=self.ovo, kernel_params=self.kernel_params)")]),
 ]
